@@ -59,7 +59,7 @@ Proof. apply (@prim_iter_greedy _ (kops_of F32 meth) p (@f32_trans meth) (@f32_i
    the returned dendrogram are the threshold components, for every non-NaN
    threshold ---- *)
 Require Import KV.Model.Linkage KV.Proofs.SortProofs KV.Proofs.RelabelWF KV.Proofs.PrimThreshold KV.Proofs.MstPrim
-  KV.Proofs.MstCuts KV.Proofs.SubCarrier KV.Proofs.SpanningTrees KV.Proofs.MstWeights KV.Proofs.Shape KV.Proofs.AgreeSingle KV.Proofs.SingleReplay.
+  KV.Proofs.MstCuts KV.Proofs.SubCarrier KV.Proofs.SpanningTrees KV.Proofs.MstWeights KV.Proofs.Shape KV.Proofs.AgreeSingle KV.Proofs.SingleReplay KV.Proofs.SlotProbe.
 From Flocq Require Import IEEE754.PrimFloat.
 
 Definition ok64 (x : PrimFloat.float) : bool := negb (PrimFloat.is_nan x).
@@ -378,4 +378,93 @@ Proof.
            (@Beqb_not_lt 24 128) f32_eqb_refl_ok p a s d m n s' d' m' M0 Hn32 H HM0 Hn1).
   - eapply Forall_impl; [|exact Hfin]. intros v Hv. apply lt_inf_ok32. exact Hv.
   - exact Hfin.
+Qed.
+
+(* ---- C07, observable consequence, Method::Single, every entry point, both float carriers ---- *)
+Theorem single_first_step_probe_f64 (p : profile) (a0 : algo) s d (m : list PrimFloat.float) (n : N) s' d' m' M0 (a b : nat) :
+  (n < two32)%N ->
+  run_with F64 p a0 Single s d m n = Ok (s', d', m') ->
+  prologue p m n = Ok M0 ->
+  Forall (fun v => f_ltb F64 v (f_inf F64) = true) m ->
+  a < b -> b < m_obs M0 ->
+  (forall x y, x < y -> y < m_obs M0 -> ~ (x = a /\ y = b) ->
+     f_ltb F64 (dcell (kops_of F64 Single) M0 a b) (dcell (kops_of F64 Single) M0 x y) = true) ->
+  exists t, nth_error (d_steps d') 0 = Some t /\ s_c1 t = a /\ s_c2 t = b
+    /\ eqv (f_ltb F64) (s_dis t) (dcell (kops_of F64 Single) M0 a b).
+Proof.
+  intros Hn32 H HM0 Hfin Hab Hb Hmin.
+  apply (@single_first_step_probe_carrier _ F64 ok64 eq_refl eq_refl f64_ltb_irrefl f64_ltb_trans
+           ltac:(intros x y z Hx Hy Hz; apply f64_ltb_negtrans; unfold ok64 in *;
+                 [destruct (PrimFloat.is_nan x)|destruct (PrimFloat.is_nan y)|destruct (PrimFloat.is_nan z)]; (reflexivity || discriminate))
+           f64_eqb_not_lt f64_eqb_refl_ok p a0 s d m n s' d' m' M0 a b Hn32 H HM0); try assumption.
+  eapply Forall_impl; [|exact Hfin]. intros v Hv. apply lt_inf_ok64. exact Hv.
+Qed.
+
+Theorem single_second_step_probe_f64 (p : profile) (a0 : algo) s d (m : list PrimFloat.float) (n : N) s' d' m' M0 (a b c e : nat) :
+  (n < two32)%N ->
+  run_with F64 p a0 Single s d m n = Ok (s', d', m') ->
+  prologue p m n = Ok M0 ->
+  Forall (fun v => f_ltb F64 v (f_inf F64) = true) m ->
+  a < b -> b < m_obs M0 -> c < e -> e < m_obs M0 -> ~ (c = a /\ e = b) ->
+  (forall x y, x < y -> y < m_obs M0 -> ~ (x = a /\ y = b) ->
+     f_ltb F64 (dcell (kops_of F64 Single) M0 a b) (dcell (kops_of F64 Single) M0 x y) = true) ->
+  (forall x y, x < y -> y < m_obs M0 -> ~ ((x = a /\ y = b) \/ (x = c /\ y = e)) ->
+     f_ltb F64 (dcell (kops_of F64 Single) M0 c e) (dcell (kops_of F64 Single) M0 x y) = true) ->
+  exists t1, nth_error (d_steps d') 1 = Some t1
+    /\ labi (m_obs M0) (d_steps d') 1 c <> labi (m_obs M0) (d_steps d') 1 e
+    /\ labi (m_obs M0) (d_steps d') 2 c = labi (m_obs M0) (d_steps d') 2 e
+    /\ ((s_c1 t1 = labi (m_obs M0) (d_steps d') 1 c /\ s_c2 t1 = labi (m_obs M0) (d_steps d') 1 e)
+        \/ (s_c1 t1 = labi (m_obs M0) (d_steps d') 1 e /\ s_c2 t1 = labi (m_obs M0) (d_steps d') 1 c))
+    /\ eqv (f_ltb F64) (s_dis t1) (dcell (kops_of F64 Single) M0 c e).
+Proof.
+  intros Hn32 H HM0 Hfin Hab Hb Hce He Hne Hmin Hmin2.
+  apply (@single_second_step_probe_carrier _ F64 ok64 eq_refl eq_refl f64_ltb_irrefl f64_ltb_trans
+           ltac:(intros x y z Hx Hy Hz; apply f64_ltb_negtrans; unfold ok64 in *;
+                 [destruct (PrimFloat.is_nan x)|destruct (PrimFloat.is_nan y)|destruct (PrimFloat.is_nan z)]; (reflexivity || discriminate))
+           f64_eqb_not_lt f64_eqb_refl_ok p a0 s d m n s' d' m' M0 a b c e Hn32 H HM0); try assumption.
+  eapply Forall_impl; [|exact Hfin]. intros v Hv. apply lt_inf_ok64. exact Hv.
+Qed.
+
+Theorem single_first_step_probe_f32 (p : profile) (a0 : algo) s d (m : list f32) (n : N) s' d' m' M0 (a b : nat) :
+  (n < two32)%N ->
+  run_with F32 p a0 Single s d m n = Ok (s', d', m') ->
+  prologue p m n = Ok M0 ->
+  Forall (fun v => f_ltb F32 v (f_inf F32) = true) m ->
+  a < b -> b < m_obs M0 ->
+  (forall x y, x < y -> y < m_obs M0 -> ~ (x = a /\ y = b) ->
+     f_ltb F32 (dcell (kops_of F32 Single) M0 a b) (dcell (kops_of F32 Single) M0 x y) = true) ->
+  exists t, nth_error (d_steps d') 0 = Some t /\ s_c1 t = a /\ s_c2 t = b
+    /\ eqv (f_ltb F32) (s_dis t) (dcell (kops_of F32 Single) M0 a b).
+Proof.
+  intros Hn32 H HM0 Hfin Hab Hb Hmin.
+  apply (@single_first_step_probe_carrier _ F32 ok32 eq_refl eq_refl (@Bltb_irrefl 24 128) (@Bltb_trans 24 128)
+           ltac:(intros x y z Hx Hy Hz; apply (@Bltb_negtrans 24 128); unfold ok32 in *;
+                 [destruct (BinarySingleNaN.is_nan x)|destruct (BinarySingleNaN.is_nan y)|destruct (BinarySingleNaN.is_nan z)]; (reflexivity || discriminate))
+           (@Beqb_not_lt 24 128) f32_eqb_refl_ok p a0 s d m n s' d' m' M0 a b Hn32 H HM0); try assumption.
+  eapply Forall_impl; [|exact Hfin]. intros v Hv. apply lt_inf_ok32. exact Hv.
+Qed.
+
+Theorem single_second_step_probe_f32 (p : profile) (a0 : algo) s d (m : list f32) (n : N) s' d' m' M0 (a b c e : nat) :
+  (n < two32)%N ->
+  run_with F32 p a0 Single s d m n = Ok (s', d', m') ->
+  prologue p m n = Ok M0 ->
+  Forall (fun v => f_ltb F32 v (f_inf F32) = true) m ->
+  a < b -> b < m_obs M0 -> c < e -> e < m_obs M0 -> ~ (c = a /\ e = b) ->
+  (forall x y, x < y -> y < m_obs M0 -> ~ (x = a /\ y = b) ->
+     f_ltb F32 (dcell (kops_of F32 Single) M0 a b) (dcell (kops_of F32 Single) M0 x y) = true) ->
+  (forall x y, x < y -> y < m_obs M0 -> ~ ((x = a /\ y = b) \/ (x = c /\ y = e)) ->
+     f_ltb F32 (dcell (kops_of F32 Single) M0 c e) (dcell (kops_of F32 Single) M0 x y) = true) ->
+  exists t1, nth_error (d_steps d') 1 = Some t1
+    /\ labi (m_obs M0) (d_steps d') 1 c <> labi (m_obs M0) (d_steps d') 1 e
+    /\ labi (m_obs M0) (d_steps d') 2 c = labi (m_obs M0) (d_steps d') 2 e
+    /\ ((s_c1 t1 = labi (m_obs M0) (d_steps d') 1 c /\ s_c2 t1 = labi (m_obs M0) (d_steps d') 1 e)
+        \/ (s_c1 t1 = labi (m_obs M0) (d_steps d') 1 e /\ s_c2 t1 = labi (m_obs M0) (d_steps d') 1 c))
+    /\ eqv (f_ltb F32) (s_dis t1) (dcell (kops_of F32 Single) M0 c e).
+Proof.
+  intros Hn32 H HM0 Hfin Hab Hb Hce He Hne Hmin Hmin2.
+  apply (@single_second_step_probe_carrier _ F32 ok32 eq_refl eq_refl (@Bltb_irrefl 24 128) (@Bltb_trans 24 128)
+           ltac:(intros x y z Hx Hy Hz; apply (@Bltb_negtrans 24 128); unfold ok32 in *;
+                 [destruct (BinarySingleNaN.is_nan x)|destruct (BinarySingleNaN.is_nan y)|destruct (BinarySingleNaN.is_nan z)]; (reflexivity || discriminate))
+           (@Beqb_not_lt 24 128) f32_eqb_refl_ok p a0 s d m n s' d' m' M0 a b c e Hn32 H HM0); try assumption.
+  eapply Forall_impl; [|exact Hfin]. intros v Hv. apply lt_inf_ok32. exact Hv.
 Qed.
